@@ -40,6 +40,10 @@ def alphabets():
     A["MaxTimes-float"] = (MaxTimes, [MaxTimes.zero, MaxTimes.one] + [MaxTimes(float(x)) for x in mt], "float")
     # incl. pairs whose gap exceeds the range of exp() (709.78): log-sum-exp must pivot on the larger one
     lg = [math.log(0.5), math.log(0.25), math.log(0.75), math.log(0.9), math.log(2.0), -3.2, 0.0, -INF, 1.5, -800.0, 760.0] + ([-30.0, math.log(0.999), 4.0, -1e5] if ex else [])
+    # a ladder of small scores: next to `one` the gap sweeps every magnitude from e^-2.5 down to below double
+    # precision (e^-35), so a shortcut that drops the smaller term too early (any threshold up to ~27 nats) shows
+    # in star(x) == one + x*star(x) and in associativity
+    lg += [-2.5 * k for k in range(1, 15)]
     A["Log"] = (Log, [Log.zero, Log.one] + [Log(x) for x in lg], "float")
     pairs = [(F(0), F(0)), (F(1), F(0)), (F(1, 2), F(-1, 2)), (F(1, 4), F(1, 3)), (F(2), F(1)), (F(3, 4), F(0)), (F(1, 3), F(-2)), (F(0), F(1)), (F(-1, 2), F(2)), (F(1), F(1))] + ([(F(9, 10), F(1, 10)), (F(0), F(-3)), (F(5), F(-3))] if ex else [])
     A["Entropy"] = (Entropy, [Entropy.zero, Entropy.one] + [Entropy(p, r) for p, r in pairs], "exact")
